@@ -146,6 +146,26 @@ pub(crate) fn split_os_argument(input: &std::ffi::OsStr) -> Option<(ArgType, Str
         const DASH: Elt = b'-' as Elt;
         const EQUALS: Elt = b'=' as Elt;
 
+        // short name is a single character, but a character can take several elements
+        fn first_char_width(name: &[Elt]) -> usize {
+            #[cfg(unix)]
+            {
+                match name.first() {
+                    Some(0xC0..=0xDF) => 2,
+                    Some(0xE0..=0xEF) => 3,
+                    Some(0xF0..=0xF7) => 4,
+                    _ => 1,
+                }
+            }
+            #[cfg(windows)]
+            {
+                match name.first() {
+                    Some(0xD800..=0xDBFF) => 2,
+                    _ => 1,
+                }
+            }
+        }
+
         // preallocate something to store the name. oversized but avoids extra allocations/copying
         let mut name = Vec::with_capacity(input.len());
 
@@ -180,11 +200,12 @@ pub(crate) fn split_os_argument(input: &std::ffi::OsStr) -> Option<(ArgType, Str
         loop {
             match items.next() {
                 Some(EQUALS) => {
-                    if ty == ArgType::Short && name.len() > 1 {
-                        let mut body = name.drain(1..).collect::<Vec<_>>();
+                    let width = first_char_width(&name);
+                    if ty == ArgType::Short && name.len() > width {
+                        let mut body = name.drain(width..).collect::<Vec<_>>();
                         body.push(EQUALS);
                         body.extend(items);
-                        name.truncate(1);
+                        name.truncate(width);
                         let os = Arg::ArgWord(os_from_vec(body));
                         return Some((ty, str_from_vec(name)?, Some(os)));
                     }
